@@ -458,7 +458,7 @@ func ExprToGo(sToGo func(Stmt) string, expr Expr) string {
 		return faToGo(eToGo, fa)
 	case Expr_EVarRef:
 		vr := _v9.Value
-		return varRefName(vr)
+		return varRefToGo(FTypeToGo, vr)
 	case Expr_ESlice:
 		es := _v9.Value
 		return sliceToGo(FTypeToGo, eToGo, es)
